@@ -96,8 +96,15 @@ func c12CheckLine(c *Ctx, line string, reqs []*rules.Request, engines bool) (acc
 		if p.name == "NewRule" {
 			accepted = true
 		}
-		if p.r.Text() != trimmed || p.r.GetFilterListID() != 9 {
-			bad("text-is-trimmed-line", fmt.Sprintf("%s(%q): Text()=%q list id=%d", p.name, line, p.r.Text(), p.r.GetFilterListID()))
+		var text string
+		var id int
+		if pt := protect(func() { text, id = p.r.Text(), p.r.GetFilterListID() }); pt != nil {
+			// e.g. a nil pointer wrapped in the interface, returned without an error
+			bad("text-is-trimmed-line", fmt.Sprintf("%s(%q) returns a %T without an error whose Text() panics: %v", p.name, line, p.r, pt))
+			continue
+		}
+		if text != trimmed || id != 9 {
+			bad("text-is-trimmed-line", fmt.Sprintf("%s(%q): Text()=%q list id=%d", p.name, line, text, id))
 		}
 		if pm := protect(func() {
 			switch r := p.r.(type) {
